@@ -1,16 +1,20 @@
 #!/bin/bash
-# usage: lib/mutant.sh <patch.diff> <prop> [<prop> ...]   — apply a seeded change to /repo, run quick checks, undo.
+# usage: lib/mutant.sh <patch.diff> <prop> [<prop> ...]   — apply a seeded change, run quick checks, undo.
+# REPO_DIR / VERIF_DIR select a scratch copy (default: /repo and /verif themselves).
+REPO_DIR=${REPO_DIR:-/repo}; VERIF_DIR=${VERIF_DIR:-/verif}
 patch="$1"; shift
-cd /repo || exit 2
-if ! git diff --quiet; then echo "/repo dirty"; exit 2; fi
+cd "$REPO_DIR" || exit 2
+if ! git diff --quiet; then echo "$REPO_DIR dirty"; exit 2; fi
 if ! git apply "$patch" 2>/dev/null; then
-  if ! patch -p1 --no-backup-if-mismatch -s < "$patch"; then echo "PATCH-DOES-NOT-APPLY $patch"; git checkout -- .; git clean -fdq -e target; exit 3; fi
+  if ! patch -p1 --no-backup-if-mismatch -s < "$patch"; then
+    echo "PATCH-DOES-NOT-APPLY $patch"; git checkout -- .; git clean -fdq -e target; exit 3
+  fi
 fi
-cd /verif
+cd "$VERIF_DIR" || exit 2
 for p in "$@"; do
   out=$(./check "$p" 2>&1); rc=$?
   nv=$(echo "$out" | grep -c '^VIOLATION')
-  echo "RESULT patch=$patch prop=$p rc=$rc violations=$nv $(echo "$out" | grep -m1 '^\[check\]   ' | cut -c1-200)"
+  echo "RESULT patch=$patch prop=$p rc=$rc violations=$nv $(echo "$out" | grep -m1 '^\[check.*\]   ' | cut -c1-200)"
   if [ $rc -eq 2 ]; then echo "$out" | tail -5; fi
 done
-cd /repo && git checkout -- . && git clean -fdq -e target
+cd "$REPO_DIR" && git checkout -- . && git clean -fdq -e target
